@@ -280,6 +280,22 @@ def dangling_cases():
     return cases
 
 
+def mixed_link_cases():
+    """Duplicates of one cache object laid out with DIFFERENT link types (part of the workspace re-created after the
+    configured type was switched), then a relinking checkout of the same tree."""
+    cases, n = [], 970000
+    for lts in (("hard", "sym"), ("sym", "hard"), ("copy", "sym"), ("hard", "copy"), ("sym", "copy"), ("copy", "hard")):
+        for c in ("c1", "c2"):
+            files = {"a": {"c": c, "lt": lts[0]}, "s/b": {"c": c, "lt": lts[1]}}
+            for link in ("copy", "hard", "sym"):
+                for state in (False, True):
+                    cases.append({"id": n, "link": link, "cls": ["local", "generic"][n % 2], "state": state,
+                                  "init": {"ws": {"kind": "dir", "files": files}, "cache": {"c0": "ok", "c1": "ok", "c2": "ok"}, "dirobjs": []},
+                                  "ops": [{"t": {"kind": "tree", "listing": {"a": c, "s/b": c}}, "force": True, "relink": True, "prompt": "absent"}]})
+                    n += 1
+    return cases
+
+
 def execute_and_validate(run, cases):
     with get_context("fork").Pool(16) as pool:
         traces = [t for part in pool.map(_work, [cases[k::64] for k in range(64) if cases[k::64]]) for t in part]
@@ -358,7 +374,7 @@ def _check(run: core.Run, focus, replay=None):
         cases = [replay["witness"]["case"]]
     else:
         gen = generate()
-        cases = directed_cases() + evict_cases() + dangling_cases() + make_cases(gen, rng, 2400 if quick else 24000, focus)
+        cases = directed_cases() + evict_cases() + dangling_cases() + mixed_link_cases() + make_cases(gen, rng, 2400 if quick else 24000, focus)
     traces = execute_and_validate(run, cases)
     run.extra["rule"] = ("TLC-generated prior workspaces (absent / file / directory, files as copies, hard links or symbolic links), "
                          "cache contents (present, absent, corrupt per object; directory object cached or not), targets (none / file / "
